@@ -55,6 +55,7 @@ def gen_file(ctx, tag, max_records, format_weights=None, allow_mixed_optint=Fals
             "path": f"/sim/{tag}f{fmt.suffix}{'.gz' if gz else ''}",
             "header_len": lay["header_len"],
             "spans": [[r["start"], r["end"], r["first_line"], r["n_lines"]] for r in lay["records"]],
+            "fspans": [{k: [v[0], len(v[1])] for k, v in r["fields"].items()} for r in lay["records"]],
             "records": records}
 
 
@@ -75,6 +76,7 @@ class File:
         self.spec = iosim.ReaderSpec(self.fmt, d["path"], self.gzip, d["lazy"], d["route"])
         self.header_len = d["header_len"]
         self.spans = d["spans"]
+        self.fspans = d.get("fspans") or []
         self.body = self.data[self.header_len:]
         self.size = len(self.data)
         self.big = max((s[1] - s[0] for s in self.spans), default=0) + 2   # largest entry in bytes (+ terminator slack)
